@@ -1401,8 +1401,10 @@ class ClashEval:
             rs = self.small_inputs[tag[1]]
             n = sum(1 for r in rs if selected(opts, r.is_nucleotide) for a in r.atoms if typed(a.name))
             f["fewer than two atoms considered"] = n < 2
+            f["fewer than two typed atoms in the structure"] = sum(1 for r in rs for a in r.atoms if typed(a.name)) < 2
         else:
             f["fewer than two atoms considered"] = False
+            f["fewer than two typed atoms in the structure"] = False
         atom = res = arg = None
         pair = self._pair_of(tag, ctx)
         for item in reversed(ctx):
@@ -1431,6 +1433,9 @@ class ClashEval:
             a, b = pair[0], pair[1]
             c = a.cluster
             f["the two residues are the same"] = a.owner is b.owner
+            f["the first residue is a nucleotide"] = bool(a.owner.is_nucleotide)
+            f["the second residue is a nucleotide"] = bool(b.owner.is_nucleotide)
+            f["both residues are nucleotides"] = bool(a.owner.is_nucleotide and b.owner.is_nucleotide)
             f["the two atom names are equal"] = a.name == b.name
             if typed(a.name) and typed(b.name):
                 f["distance above r_a + r_b + extra"] = c.dist > self.radii[a.name[0]] + self.radii[b.name[0]] + (self.extra if opts["enable_molprobity_mode"] else 0.0)
@@ -1613,7 +1618,7 @@ def check_find_clashes(chk, fi, radii: Dict[str, float], extra: float) -> Option
     extra_f = [t for t in conds if t[1] is None and t[3]]
     unread_c = [t for t in conds if t[1] is None and not t[3]]
     for node, _, _, _, n, const in extra_f:
-        chk.violation("option-extra-filter", fi.site(node), f"condition `{norm(node)[:70]}` in the clash loop is {'constant on all representatives' if const else 'not a function of one feature of the definition (option, same residue, equal names, distance vs threshold, occupancy)'}: an additional filter", _K(fi, f"extra:{norm(node)[:50]}"))
+        chk.violation("option-extra-filter", fi.site(node), f"condition `{norm(node)[:70]}` in the clash loop is {'constant on all representatives' if const else 'not a function of one feature of the definition (option, same residue, nucleotide, equal names, distance vs threshold, occupancy)'}: an additional filter", _K(fi, f"extra:{norm(node)[:50]}"))
     if not extra_f:
         chk.ok("option-extra-filter", site, f"{sum(1 for t in conds if t[3])} atomic conditions in the clash loop, each a function of one feature of the definition: " + "; ".join(f"`{norm(t[0])[:40]}` = {'not ' if t[2] else ''}{t[1]}" for t in conds if t[3])[:600])
     for node, _, _, _, n, const in unread_c:
